@@ -4,13 +4,95 @@ C29: Cache-Control directives parse and re-serialise faithfully.
 Statement: "Parsing a Cache-Control field value yields exactly the directives present: known flags, numeric values that fit
 and are not negative, and quoted field lists. Invalid numeric values are treated as absent. Packing the parsed directives and
 parsing the result again yields the same directives."
+
+Model: `SquidModel/Cc/*.lean` (HttpHdrCc::parse, HttpHdrCc::packInto, strListGetItem, httpHeaderParseInt = atoi,
+httpHeaderParseQuotedString, the directive table regenerated into `Gen/CcDirectives.lean`).
+`view c t` = what the accessor pair `isSet(t)` / `hasX(&value)` reports for directive `t`.
 -/
-import SquidModel.Cc.NumLemmas
+import SquidModel.Cc.Exact
+import SquidModel.Cc.QuotedLemmas
 
 namespace SquidModel.C29
 open SquidModel SquidModel.Cc
 
-/-! ## numeric values -/
+/-! ## 1. "yields exactly the directives present" -/
+
+/-- For every field value and every known directive `t`: what the accessors report after `parse` is what the FIRST item of type
+`t` that records anything records (`effective`), and nothing if there is no such item. Items are the elements
+`strListGetItem` delivers; the type of an item is the case-insensitive table lookup of the text before its first `=`. -/
+theorem parse_exact (s : Bytes) (t : CcType) (ho : t ≠ .other) (he : t ≠ .enumEnd) :
+    view (parse s) t = ((items s).filter (fun it => itemType it = t)).findSome? (effective t) := by
+  unfold parse parseFrom
+  rw [foldl_view _ _ lite_init t ho he, view_init]
+  simp
+
+/-- The unknown directives are kept verbatim, in order, joined by ", ". -/
+theorem parse_other_exact (s : Bytes) :
+    (parse s).other = joinItems (((items s).filter (fun it => itemType it = .other)).map (fun it => it.1.take it.2)) := by
+  unfold parse parseFrom
+  rw [foldl_other, foldl_join]
+  · simp
+  · intro e he
+    simp only [List.mem_map, List.mem_filter] at he
+    obtain ⟨it, ⟨hit, _⟩, rfl⟩ := he
+    exact items_texts_ne s _ (List.mem_map.mpr ⟨it, hit, rfl⟩)
+
+/-- Every item the splitter delivers is a well-formed element: non-empty, not starting with a separator octet, not ending in
+white space, without a comma outside quotes; and every item but the last ends outside quotes. -/
+theorem items_wellformed (s : Bytes) :
+    (∀ e ∈ itemTexts (items s), GoodItem e) ∧ InitClosed (itemTexts (items s)) :=
+  ⟨(itemsAux_spec _ s).1, (itemsAux_spec _ s).2.1⟩
+
+/-- Conversely a ", "-joined list of well-formed elements (all but the last ending outside quotes) is split into exactly these
+elements. -/
+theorem items_of_joined (es : List Bytes) (hg : ∀ e ∈ es, GoodItem e) (hc : InitClosed es) :
+    itemTexts (items (joinItems es)) = es := by
+  rw [items_join es hg hc]
+  induction es with
+  | nil => rfl
+  | cons a r ih =>
+    have := ih (fun e he => hg e (List.mem_cons_of_mem _ he)) (by
+      cases r with
+      | nil => trivial
+      | cons b r' => exact hc.2)
+    simp only [suffixItems, itemTexts, List.map_cons] at this ⊢
+    rw [this]
+    congr 1
+    cases r with
+    | nil => simp [joinItems]
+    | cons b r' => simp [joinItems]
+
+/-- A known flag is recorded iff some item carries its name. -/
+theorem flag_present_iff (s : Bytes) (t : CcType) (hf : isFlagType t = true) :
+    (parse s).isSet t = true ↔ ∃ it ∈ items s, itemType it = t := by
+  have ho : t ≠ .other := by intro h; subst h; simp [isFlagType] at hf
+  have he : t ≠ .enumEnd := by intro h; subst h; simp [isFlagType] at hf
+  have h := parse_exact s t ho he
+  constructor
+  · intro hs
+    have : view (parse s) t ≠ none := by simp [view, hs]
+    rw [h] at this
+    cases hfs : ((items s).filter (fun it => itemType it = t)) with
+    | nil => simp [hfs] at this
+    | cons it r =>
+      have : it ∈ (items s).filter (fun it => itemType it = t) := by rw [hfs]; exact List.mem_cons_self
+      simp only [List.mem_filter, decide_eq_true_eq] at this
+      exact ⟨it, this.1, this.2⟩
+  · rintro ⟨it, hit, hty⟩
+    have hm : it ∈ (items s).filter (fun it => itemType it = t) := by simp [List.mem_filter, hit, hty]
+    cases hfs : ((items s).filter (fun it => itemType it = t)) with
+    | nil => rw [hfs] at hm; simp at hm
+    | cons a r =>
+      rw [hfs] at h
+      simp only [List.findSome?_cons, effective, hf, ↓reduceIte] at h
+      cases hs : (parse s).isSet t with
+      | true => rfl
+      | false =>
+        have : view (parse s) t = none := (view_none_iff _ _).mpr hs
+        rw [this] at h
+        simp at h
+
+/-! ## 2. numeric values -/
 
 /-- A numeric argument that is 1*DIGIT, fits `int` and is followed by the end of the value or a non-digit is parsed to its
 decimal value (no sign, no rounding, no truncation). -/
@@ -19,18 +101,93 @@ theorem valid_numeric_exact (ds rest : Bytes) (hne : ds ≠ []) (hd : ∀ d ∈ 
     parseInt (ds ++ rest) = (true, (decVal ds : Int)) :=
   parseInt_digits ds rest hne hd hr hfit
 
+/-- Whatever is recorded for a numeric directive is a non-negative `int` (so "not negative" and "fits" hold of the result). -/
+theorem numeric_recorded_range (it : Bytes × Nat) (v : Int) (h : numOf it = some v) : 0 ≤ v ∧ v ≤ INT_MAX := by
+  unfold numOf at h
+  cases hp : itemArg it with
+  | none => simp [hp] at h
+  | some p =>
+    simp only [hp] at h
+    split at h
+    · rename_i hc
+      simp only [Option.some.injEq] at h
+      subst h
+      refine ⟨hc.2, ?_⟩
+      rw [parseInt_snd, INT_MAX_eq]
+      exact (atoiC_range p).2
+    · simp at h
+
 /-- "max-age=4294967297" -/
 def wWrap : Bytes := [109,97,120,45,97,103,101,61,52,50,57,52,57,54,55,50,57,55]
 /-- "max-age=10x" -/
 def wGarbage : Bytes := [109,97,120,45,97,103,101,61,49,48,120]
 
-/-- FULL STATEMENT (false of the code): a numeric argument that is not 1*DIGIT or does not fit `int` leaves the directive absent.
-Counterexample 1: 4294967297 does not fit, yet max-age is recorded as 1 (`atoi` keeps the low 32 bits). -/
+/- FULL STATEMENT (false of the code):
+   theorem invalid_numeric_absent (it) (h : ¬ (the argument of `it` is 1*DIGIT with value ≤ INT_MAX)) : numOf it = none -/
+
+/-- Counterexample 1: 4294967297 does not fit, yet max-age is recorded as 1 (`atoi` keeps the low 32 bits). -/
 theorem invalid_numeric_absent_counterexample_wrap :
-    (parse wWrap).isSet .maxAge = true ∧ (parse wWrap).maxAge = 1 := by decide +kernel
+    view (parse wWrap) .maxAge = some (.num 1) := by decide +kernel
 
 /-- Counterexample 2: "10x" is not a number, yet max-age is recorded as 10 (`atoi` stops at the first non-digit). -/
 theorem invalid_numeric_absent_counterexample_garbage :
-    (parse wGarbage).isSet .maxAge = true ∧ (parse wGarbage).maxAge = 10 := by decide +kernel
+    view (parse wGarbage) .maxAge = some (.num 10) := by decide +kernel
+
+/-- PARTIAL: invalid numeric arguments are treated as absent OUTSIDE the excluded region.
+Excluded region (explicit in the hypotheses): arguments in which `atoi` finds a number although they are not 1*DIGIT
+(leading white space / sign, trailing text), and 1*DIGIT arguments with 2^32 ≤ value < 2^63 - 1.
+Covered: (a) no argument, (b) text without a number (`NoNumber`), (c) 1*DIGIT with 2^31 ≤ value < 2^32 or value ≥ 2^63 - 1. -/
+theorem invalid_numeric_absent_partial (it : Bytes × Nat)
+    (h : itemArg it = none ∨
+         (∃ p, itemArg it = some p ∧ NoNumber p) ∨
+         (∃ ds rest, itemArg it = some (ds ++ rest) ∧ ds ≠ [] ∧ (∀ d ∈ ds, isDigitC d = true) ∧
+            (∀ c, rest.head? = some c → isDigitC c = false) ∧
+            2147483648 ≤ decVal ds ∧ (decVal ds < 4294967296 ∨ 9223372036854775807 ≤ decVal ds))) :
+    numOf it = none := by
+  unfold numOf
+  rcases h with h | ⟨p, hp, hn⟩ | ⟨ds, rest, hp, hne, hd, hr, hbig⟩
+  · simp [h]
+  · simp [hp, parseInt_noNumber p hn]
+  · have := parseInt_digits_negative ds rest hne hd hr hbig
+    simp only [hp]
+    split
+    · rename_i hc; omega
+    · rfl
+
+/-- … and an absent numeric value means: the directive is not recorded (max-age, s-maxage, min-fresh, stale-if-error),
+or recorded without a value (max-stale: `MAX_STALE_ANY`). -/
+theorem absent_numeric_effect (t : CcType) (it : Bytes × Nat) (hn : isNumType t = true) (h : numOf it = none) :
+    effective t it = if t = .maxStale then some (.num Gen.CcDirectives.MAX_STALE_ANY) else none := by
+  cases t <;> simp [isNumType] at hn <;> simp [effective, isFlagType, isNumType, h]
+
+/-! ## 3. quoted field lists -/
+
+/-- A quoted-string argument without quoted-pairs and without control octets yields exactly its content, whatever follows. -/
+theorem quoted_list_exact (v rest : Bytes) (len : Nat) (hv : ∀ c ∈ v, isPlainQ c = true) (hlen : v.length + 1 ≤ len) :
+    parseQuoted (34 :: (v ++ 34 :: rest)) len = some v :=
+  parseQuoted_plain v rest len hv hlen
+
+/- FULL STATEMENT (false of the code): for every quoted-string, `parseQuoted` yields the content with each quoted-pair `\x`
+   replaced by `x`. -/
+
+/-- Counterexample: `"a\"b"` (content a"b) yields `a`: the escaped quote ends the string. -/
+theorem quoted_pair_counterexample : parseQuoted [34, 97, 92, 34, 98, 34] 6 = some [97] := by decide +kernel
+/-- Counterexample: `"a\\b"` (content a\b) yields `ab`: the escaped backslash is dropped. -/
+theorem quoted_pair_counterexample_backslash : parseQuoted [34, 97, 92, 92, 98, 34] 6 = some [97, 98] := by decide +kernel
+/-- Counterexample: HTAB (legal in a quoted-string) makes the whole argument invalid. -/
+theorem quoted_htab_counterexample : parseQuoted [34, 97, 9, 98, 34] 5 = none := by decide +kernel
+
+/-! ## non-vacuity -/
+
+/-- `public, max-age=5, x=1` -/
+def wMixed : Bytes := [112,117,98,108,105,99,44,32,109,97,120,45,97,103,101,61,53,44,32,120,61,49]
+example : view (parse wMixed) .public_ = some .flag := by decide +kernel
+example : view (parse wMixed) .maxAge = some (.num 5) := by decide +kernel
+example : (parse wMixed).other = [120, 61, 49] := by decide +kernel
+example : (items wMixed).length = 3 := by decide +kernel
+example : GoodItem [112,117,98,108,105,99] := ⟨by decide, by decide, by decide, ⟨(false, false), by decide⟩⟩
+example : ¬ NoNumber [49, 48, 120] := by unfold NoNumber; decide
+example : NoNumber [120, 49] := by unfold NoNumber; decide
+example : isPlainQ 97 = true ∧ isPlainQ 44 = true ∧ isPlainQ 32 = true := by decide
 
 end SquidModel.C29
